@@ -585,13 +585,13 @@ def cosine_dist(u, v):
 # ------------------------------------------------------------------ C13
 def gen_c13(rng, tier):
     if rng.random() < 0.2:
-        return {"base": gen.gen_two_stage_warm(rng, with_final=False, label=rng.choice(["int", "int", "str", "float"])), "seed2": rng.randint(0, 10**9)}
+        return {"base": gen.gen_two_stage_warm(rng, with_final=False, label=rng.choice(["int", "int", "str", "float", "tenths"])), "seed2": rng.randint(0, 10**9)}
     if rng.random() < 0.7:
         base = gen.gen_cf_case(rng, kinds=["greedy", "ucb", "softmax", "thompson", "popularity"], max_ops=6, warm=True, queries=False,
-                               label=rng.choice(["int", "int", "str", "float", "negint"]))
+                               label=rng.choice(["int", "int", "str", "float", "negint", "tenths"]))
     else:
         base = gen.gen_ctx_case(rng, nps=["none"], lps=gen.LIN_KINDS, max_ops=5, warm=True, queries=False,
-                                label=rng.choice(["int", "int", "str", "float"]))
+                                label=rng.choice(["int", "int", "str", "float", "tenths"]))
     return {"base": base, "seed2": rng.randint(0, 10**9)}
 
 def run_c13(t):
@@ -611,6 +611,14 @@ def run_c13(t):
     q = rng.choice([0.0, 0.25, 0.5, 0.75, 1.0, rng.random()])
     fd = {label(a): list(f) for a, f in zip(keys, feats)}
     before = arm_state(mab, inv); st_before = status_of(mab, inv)
+    # "observed since the last fit", recomputed from the accepted calls: the trained flag of an arm must say exactly that
+    rows_h, _, _ = training_history(base, outs)
+    observed = {d for d, _, _ in rows_h}
+    for a in arms:
+        if bool(st_before[a][0]) != (a in observed):
+            return False, {"why": "arm %r %s since the most recent fit, but its trained flag is %s: cold_arms must list exactly the arms that are neither observed nor warm-started" % (
+                               a, "has observations" if a in observed else "has no observation", st_before[a][0]),
+                           "cold_arms": [inv(x) for x in mab.cold_arms], "label_style": base.get("label")}
     twin_lo = copy.deepcopy(mab); twin_hi = copy.deepcopy(mab)
     try:
         mab.warm_start(fd, float(q))
